@@ -453,7 +453,8 @@ def parse_phase(events):
 
 
 def device_model_case(d, nows):
-    return [1, d["cols"], d["rows"], [[CODE[a[0]], a[1], a[2], a[3], bool(a[4])] for a in d["anims"]], list(nows)]
+    # the device String holds the UTF-8 bytes of the literal: the model text is the byte list
+    return [1, d["cols"], d["rows"], [[CODE[a[0]], a[1], list(a[2].encode("utf-8")), a[3], bool(a[4])] for a in d["anims"]], list(nows)]
 
 
 def dec_dev(evs):
@@ -505,6 +506,7 @@ def device_oracle(ctx, case, setup, passes, lid, stats):
     if len(anims) != 1:
         return
     style, row, text, speed, loop = anims[0]
+    text = text.encode("utf-8").decode("latin-1")      # one character per byte = per cell written
     B = bound(len(text), cols)
     steps = []
     nsteps = 0
@@ -588,6 +590,13 @@ def gen_device_groups(ctx):
                 singles.append({"style": style, "cols": cols, "n": n, "loop": loop, "speed": -7,
                                 "kind": "late", "rows": 2, "row": j % 2, "i2c": j % 2 == 1, "salt": j})
                 j += 1
+    # non-ASCII literals (UTF-8 bytes in the device String; a frame may cut a multi-byte character)
+    for q, txt in enumerate(["h\u00e9llo w\u00f6rld", "\u6f22\u5b57\u304b\u306a", "\u00b0C \u2713", "na\u00efve caf\u00e9 \u2615 time"]):
+        for style in STYLES:
+            cols = [3, 8, 16, 5][(q + j) % 4]
+            singles.append({"style": style, "cols": cols, "n": len(txt.encode("utf-8")), "loop": (q + j) % 2 == 0, "speed": [0, 1, 100][j % 3],
+                            "kind": KINDS[j % 4], "rows": 2, "row": j % 2, "i2c": j % 2 == 1, "salt": j, "text": txt})
+            j += 1
     groups = {}
     for s in singles:
         cls = "S" if s["cols"] <= 8 else "L"
@@ -600,7 +609,7 @@ def gen_device_groups(ctx):
             lcds = []
             need = 0
             for q, s in enumerate(part):
-                text = mk_text(s["n"], salt=s["salt"])
+                text = s.get("text") or mk_text(s["n"], salt=s["salt"])
                 lcds.append({"name": f"d{q:02d}", "cols": s["cols"], "rows": s["rows"], "i2c": s["i2c"],
                              "anims": [[s["style"], s["row"], text, speed, s["loop"]]]})
                 nd = bound(s["n"], s["cols"]) + 2
@@ -689,7 +698,8 @@ def run_device(ctx, stats):
             tally(stats, "dev_style", a[0])
             tally(stats, "dev_loop", bool(a[4]))
             tally(stats, "dev_speed", speed_class(int(a[3])))
-            tally(stats, "dev_text_vs_cols", len_class(len(a[2]), case["lcd"]["cols"]))
+            tally(stats, "dev_text_vs_cols", len_class(len(a[2].encode("utf-8")), case["lcd"]["cols"]))
+            tally(stats, "dev_text_kind", "ascii" if a[2].isascii() else "non-ascii (utf-8 bytes)")
         stats["dev_passes"] = stats.get("dev_passes", 0) + len(passes)
         if any(p["lw"].get(lid) for p in passes):
             nontrivial.add(repr((case["lcd"], case["nows"][:6])))
@@ -825,13 +835,13 @@ def run(ctx: C.Ctx):
                 "tick histories are long enough to contain more than len+2*cols+2 due ticks (non-looping). Non-trivial = at least one frame was drawn by a tick; distinct by (geometry, animations, schedule prefix).",
         "samples": [hcases[0], hcases[len(hcases) // 2], dindex[0][0] if dindex else None],
         "distribution": stats,
-        "guard": "host: cols, rows >= 1, tick times positive and non-decreasing; device: additionally 0 <= row < rows, printable ASCII text (speed_ms may be negative: cast to unsigned long), "
+        "guard": "host: cols, rows >= 1, tick times positive and non-decreasing; device: additionally 0 <= row < rows, text without control characters, quotes or backslashes (non-ASCII text = its UTF-8 bytes; speed_ms may be negative: cast to unsigned long), "
                  "1 <= cols <= 40, lcd.animate calls placed before `while True:` (outside: F-C18-animate-in-loop-never-ticked)",
-        "unmodelled": ["device: non-ASCII text (String is bytes), row outside the display (library clamps the row), millis() wrap-around, speed_ms >= 2^W (wraps in the unsigned cast)",
+        "unmodelled": ["device: row outside the display (library clamps the row), millis() wrap-around, speed_ms >= 2^W (wraps in the unsigned cast)",
                        "device: DDRAM addressing beyond 40 columns / 4-row interleaving (shown unreachable by C18_frame_geometry_device)",
                        "host: non-int now_ms / speed_ms, LCD.begin() during an animation"],
         "trusted_base": C.COMMON_TRUSTED + ["harness/impl/c18_impl.py (real LCD object; buffer item assignments recorded by a list subclass; time.sleep replaced by a counter)",
                                             "mock/LiquidCrystal.h + mock_core.cpp (cursor-addressed DDRAM, LW/LD events, scripted millis())", "g++ 12 -O0",
                                             "harness/fw.py, transpile_impl.py"],
     })
-    ctx.assumptions += ["tick timestamps are positive and non-decreasing (the property's quantifier)", "device text is printable ASCII"]
+    ctx.assumptions += ["tick timestamps are positive and non-decreasing (the property's quantifier)", "device text literals contain no control characters, quotes or backslashes (string-literal escaping is C06's subject)"]
